@@ -133,3 +133,26 @@ func VerifC10_capture_nopanic() {
 	vReach("capture-ran")
 	vAssert(!p, "capture-no-panic")
 }
+
+// C06 — two capture conns never share a buffer: each returns the bytes of its own stream, also
+// when both are read alternately.
+func VerifC06_capture_disjoint() {
+	sa := []byte{0x16, 3, 1, 0, 1, vU8("a")}
+	sb := []byte{0x16, 3, 1, 0, 1, vU8("b")}
+	ua, ub := &vConn{s: sa}, &vConn{s: sb}
+	ca, cb := NewHijackClientHelloConn(ua), NewHijackClientHelloConn(ub)
+	buf := make([]byte, 8) // the caller reuses one read buffer for both connections
+	ua.next, ub.next = 3, 6
+	ca.Read(buf)
+	cb.Read(buf)
+	ua.next = 3
+	ca.Read(buf)
+	ra, ea := ca.GetClientHello()
+	rb, eb := cb.GetClientHello()
+	vReach("two-captures")
+	vAssert(ea == nil && eb == nil, "both-captured")
+	vAssert(string(ra) == string(sa) && string(rb) == string(sb), "each-capture-is-its-own-stream")
+	vAssert(!vSameSlice(ra, rb), "capture-buffers-disjoint")
+	buf[0] = 0xff
+	vAssert(ra[0] == 0x16 && rb[0] == 0x16, "capture-does-not-alias-the-callers-buffer")
+}
